@@ -305,6 +305,36 @@ def check_sites(chk, cid, prog, f, cfgname):
                             'to be repeated until the need fits' % pretty(c), cfgname=cfgname)
             else:
                 chk.ok(cid, inst + ':pre-check', sample='while (%s)' % pretty(c))
+        # (d) the `next` argument is the number of entries to carry over: it must be the append cursor of this very array (a variable used as the
+        #     subscript of the stores that fill it), or the very subscript of a store into it - a column start such as xusub[jcol] loses what was
+        #     appended to the current column before the array ran full
+        arr_names = {FIELD_OF[T]}
+        for vid, fld in aliases(f).items():
+            if fld == FIELD_OF[T] and vid in f.locals:
+                arr_names.add(f.locals[vid].a.get('name'))
+        subs = []
+        for x in f.body.walk():
+            if x.k == 'Assign' and strip(x.c[0]).k == 'Index':
+                b = strip(strip(x.c[0]).c[0])
+                bn = b.a.get('name') if b.k in ('Ref', 'Member') else None
+                if b.k == 'Cast':
+                    bb = strip(b)
+                    bn = bb.a.get('name') if bb.k in ('Ref', 'Member') else bn
+                if bn in arr_names:
+                    sub = strip(strip(x.c[0]).c[1])
+                    if sub.k == 'Unary' and sub.a['op'] in ('++', 'post++'):
+                        sub = strip(sub.c[0])
+                    subs.append(sub)
+        cursors = [sb for sb in subs if sb.k == 'Ref' and sb.a.get('id') in f.locals]
+        if cursors:      # the routine appends to the array itself (when a callee does the filling there is nothing to compare with)
+            cursor_ok = any((nxt.k == 'Ref' and sb.a.get('id') == nxt.a.get('id')) for sb in cursors) or any(canon(sb) == canon(nxt) for sb in subs)
+            if cursor_ok:
+                chk.ok(cid, inst + ':carries-over-up-to-the-cursor', sample=pretty(nxt)[:30])
+            else:
+                chk.violate(cid, inst + ':carries-over-up-to-the-cursor', loc(f, call), f.name,
+                            'the entry count `%s` passed to the expansion of %s is not the position up to which %s has been filled (the stores into it use %s): '
+                            'under library allocation only that many entries are copied to the new block, so what was appended beyond it is lost'
+                            % (pretty(nxt)[:30], T, FIELD_OF[T], sorted({pretty(sb)[:20] for sb in subs})), cfgname=cfgname)
         # (c) result tested and returned
         res_ok = False
         for (k2, nd) in reversed(guards):
